@@ -97,8 +97,8 @@ pub struct Behav {
     pub gates_after: u8,
     pub outcome: Outcome,
     /// Number of `tracing` log lines to emit (vtrace only).
-    pub logs_before: u8,
-    pub logs_after: u8,
+    pub logs_before: u16,
+    pub logs_after: u16,
     /// Panic synchronously inside the callback fn, before it returns its future.
     pub eager: bool,
     /// Log lines emitted later, from outside the callback, inside a clone of its span
@@ -123,6 +123,8 @@ pub enum WorldBehav {
     Ok,
     Err,
     Panic(PanicKind),
+    /// panics in the synchronous prologue of `World::new()`, before the future exists
+    EagerPanic(PanicKind),
 }
 
 #[derive(Clone, Copy, Debug, PartialEq, Eq)]
@@ -153,6 +155,17 @@ pub struct Cfg {
     pub after_hook: bool,
     /// Custom `which_scenario`: serial iff scenario name contains "SOLO".
     pub custom_which: bool,
+    /// Custom `retry_options` function (a "resumed run"): a scenario tagged `resumed.C.L` starts
+    /// with `Retries { current: C, left: L }`, every other one gets the default options.
+    pub resume: bool,
+}
+
+/// `resumed.C.L` -> (C, L)
+pub fn resumed_tag(tags: &[String]) -> Option<(usize, usize)> {
+    tags.iter().find_map(|t| {
+        let mut it = t.strip_prefix("resumed.")?.split('.');
+        Some((it.next()?.parse().ok()?, it.next()?.parse().ok()?))
+    })
 }
 
 impl Cfg {
@@ -211,6 +224,8 @@ pub struct Profile {
     pub limits: &'static [Option<usize>],
     pub p_empty: usize,
     pub p_custom_which: usize,
+    /// % of cases run with a custom `retry_options` function (resumed run)
+    pub p_resume: usize,
     pub p_sleep: usize,
     pub p_filter: usize,
     /// Percentage of callbacks emitting tracing log lines (vt only).
@@ -244,6 +259,7 @@ impl Profile {
             limits: &[Some(1), Some(2), Some(3), Some(64), None],
             p_empty: 10,
             p_custom_which: 8,
+            p_resume: 6,
             p_sleep: 0,
             p_filter: 15,
             p_logs: 0,
@@ -501,8 +517,15 @@ impl Gen<'_> {
                 } else {
                     Outcome::Pass
                 },
-                logs_before: if pct(&mut self.r, self.p.p_logs) { self.r.range(1, 2) as u8 } else { 0 },
-                logs_after: if pct(&mut self.r, self.p.p_logs) { self.r.range(0, 2) as u8 } else { 0 },
+                logs_before: if pct(&mut self.r, self.p.p_logs) { self.r.range(1, 2) as u16 } else { 0 },
+                // now and then a chatty step: a burst of log events within one poll
+                logs_after: if self.p.p_logs > 0 && self.r.chance(1, 300) {
+                    *self.r.pick(&[120u16, 257, 300, 520, 1100, 2100]) + self.r.below(9) as u16
+                } else if pct(&mut self.r, self.p.p_logs) {
+                    self.r.range(0, 2) as u16
+                } else {
+                    0
+                },
                 eager: fail && self.p.p_logs == 0 && self.r.chance(1, 4),
                 deferred_logs: if !fail && self.p.p_logs > 0 && self.r.chance(1, 6) { 1 } else { 0 },
             });
@@ -725,7 +748,13 @@ pub fn generate(profile: &Profile, seed: u64, index: u64) -> CaseSpec {
     let world_plan = (0..12)
         .map(|_| {
             if pct(&mut r, profile.p_world_fail) {
-                if r.chance(1, 2) { WorldBehav::Err } else { WorldBehav::Panic(*r.pick(&wkinds)) }
+                if r.chance(1, 2) {
+                    WorldBehav::Err
+                } else if r.chance(1, 3) {
+                    WorldBehav::EagerPanic(*r.pick(&wkinds))
+                } else {
+                    WorldBehav::Panic(*r.pick(&wkinds))
+                }
             } else {
                 WorldBehav::Ok
             }
@@ -740,6 +769,22 @@ pub fn generate(profile: &Profile, seed: u64, index: u64) -> CaseSpec {
         7 => Policy::StarveOne,
         _ => Policy::SerialLast,
     };
+
+    // a resumed run: its own random stream, so that the other dimensions stay as they were
+    if profile.p_resume > 0 {
+        let mut r2 = Rng::new(seed.wrapping_mul(0x9E37_79B9).wrapping_add(index) ^ 0x5E5);
+        if pct(&mut r2, profile.p_resume) {
+            cfg.resume = true;
+            for it in &mut items {
+                let Item::Feat(f) = it else { continue };
+                for sc in f.scenarios.iter_mut().chain(f.rules.iter_mut().flat_map(|r| r.scenarios.iter_mut())) {
+                    if r2.chance(1, 2) {
+                        sc.tags.push(format!("resumed.{}.{}", r2.range(1, 3), r2.range(0, 2)));
+                    }
+                }
+            }
+        }
+    }
 
     CaseSpec {
         items,
